@@ -169,10 +169,14 @@ var c07Values = []string{"push", "a b c", "a,b", "a, b", "ünïcödé ✓", "  p
 func genHeaders(r *vlib.Rand) []wireHeader {
 	n := r.Range(0, 20)
 	var hs []wireHeader
+	if r.Chance(0.2) {
+		hs = append(hs, wireHeader{Name: "Content-Type", Value: vlib.Pick(r, []string{"application/x-www-form-urlencoded", "multipart/form-data; boundary=xyz"})})
+	}
 	for i := 0; i < n; i++ {
 		h := wireHeader{Name: vlib.Pick(r, c07Names), Value: vlib.Pick(r, c07Values)}
 		if h.Name == "Content-Type" {
-			h.Value = "application/json"
+			// media types a server-side helper might want to parse: the body stays opaque
+			h.Value = vlib.Pick(r, []string{"application/json", "application/json", "application/x-www-form-urlencoded", "application/x-www-form-urlencoded; charset=utf-8", "multipart/form-data; boundary=xyz", "text/plain", "application/xml", "APPLICATION/X-WWW-FORM-URLENCODED"})
 		}
 		hs = append(hs, h)
 		if r.Chance(0.25) { // repeated header, maybe in another casing
@@ -208,6 +212,8 @@ func genBody(r *vlib.Rand, maxBody int) []byte {
 		return []byte(`{"json":"body","n":1,"nested":{"a":[1,2,3]}}`)
 	case 8:
 		return []byte("line1\r\nline2\n\ttabbed  trailing   \n\n")
+	case 9:
+		return []byte(vlib.Pick(r, []string{"a=1&b=two+words&c=%zz&a=3", "payload=%7B%22x%22%3A1%7D&sig=abc", "--xyz\r\nContent-Disposition: form-data; name=\"f\"\r\n\r\nv\r\n--xyz--\r\n", "&&&===;;;"}))
 	}
 	return r.Bytes(r.Range(1, minInt(maxBody, 5000)))
 }
